@@ -43,6 +43,7 @@ def parseOp : List String → Option Op
   | ["trading", b] => (parseBool b).map .trading
   | ["resetvol"] => some .resetVol
   | ["reload", _] => some .reload
+  | ["jump", _] => some .reload   -- the shift amount is read from the op line (`Main.handleObs`)
   | _ => none
 
 def splitC (s : String) (c : String) : List String := s.splitOn c
